@@ -677,3 +677,42 @@ class PatGen:
             parts.append("%s: _" % ktxt)
         self.use("map" + ("-rest" if rest else ""))
         return "#{ %s }" % ", ".join(parts + ([".."] if rest else []))
+
+
+def top_form(pat):
+    """Form of the outermost pattern, from its text."""
+    import re
+    p = pat.strip()
+    if p.startswith("|") or p.startswith("move"):
+        return "closure"
+    if re.match(r"_\s*\{", p):
+        return "wildcard-struct"
+    if p == "_":
+        return "wild"
+    for op, n in (("==", "eq"), ("!=", "ne"), ("<=", "le"), (">=", "ge"), ("<", "lt"), (">", "gt")):
+        if p.startswith(op):
+            return n
+    if p.startswith("=~"):
+        return "regex" if p[2:].strip().startswith(('"', 'r"', "r#")) else "like"
+    if p.startswith("#("):
+        return "set"
+    if p.startswith("#{"):
+        return "map"
+    if p.startswith("["):
+        return "slice"
+    if p.startswith("("):
+        return "tuple"
+    if p.startswith('"'):
+        return "string"
+    m = re.match(r"[A-Za-z_][A-Za-z0-9_:]*", p)
+    if m and not p.startswith(("true", "false")):
+        rest = p[m.end():].lstrip()
+        if rest.startswith("{"):
+            return "struct"
+        if rest.startswith("("):
+            return "enum-tuple"
+        if rest == "":
+            return "unit-variant"
+    if ".." in p and not p.startswith('"'):
+        return "range"
+    return "simple"
